@@ -513,6 +513,12 @@ func encodePooled(ty string, p any) ([]byte, error) {
 	return encodeWith(e, ty, p)
 }
 
+// exactEntry: the entry point is handed the whole message and reports no consumed count (UnmarshalBinary)
+func exactEntry(p any) bool {
+	_, ok := p.(*fuzz.PeerInfo)
+	return ok
+}
+
 // decode returns (consumed, err); consumed = -1 when the entry point does not report it
 func decode(ty string, in []byte, p any) (int, error) {
 	switch x := p.(type) {
@@ -726,6 +732,7 @@ func runDec(out *outw) {
 			panic("unknown type " + ty)
 		}
 		q := mk()
+		rec["exact"] = exactEntry(q)
 		var consumed int
 		var err error
 		buf := append([]byte(nil), in...)
